@@ -40,6 +40,14 @@ func readVolume(volumeBytes []byte) (volume, error) {
 	// TODO: Check count of files saved in volume set, and other
 	// offsets and bytes.
 
+	// Each entry takes up at least a header and one UTF-16 code
+	// unit, so don't trust a file count that can't possibly fit
+	// in the remaining data (it would otherwise be used to
+	// allocate memory up front).
+	if header.FileCount > uint64(buf.Len())/(sizeOfFileEntryHeader()+2) {
+		return volume{}, errors.New("file count too big")
+	}
+
 	entries := make([]fileEntry, header.FileCount)
 	var setHashInput []byte
 	for i := uint64(0); i < header.FileCount; i++ {
